@@ -85,7 +85,9 @@ def run(tier):
                 cl, sc["sid"], [e["result"] for e in x["result"]["ev"]]), replay=dict(scenario=sc, records=x["result"]["ev"]))
     # --- configuration product ---------------------------------------------------------------
     cases = ["kundur/kundur_full.json", "ieee14/ieee14_fault.json"] if quick else \
-        ["kundur/kundur_full.json", "ieee14/ieee14_fault.json", "5bus/pjm5bus.json", "ieee39/ieee39_full.xlsx"]
+        ["kundur/kundur_full.json", "ieee14/ieee14_fault.json", "5bus/pjm5bus.json", "ieee14/ieee14_full.xlsx", "wscc9/wscc9.xlsx"]
+    # (ieee39_full is not used here: its undisturbed trajectory already leaves the initial point - a C05 finding - so that
+    #  rounding differences between back-ends are amplified without bound, and its reduced matrix is numerically singular)
     cfgs = []
     for lib in ("klu", "umfpack", "spsolve"):
         for lin in (0, 1):
